@@ -38,7 +38,8 @@ def gen_line(rng, regdefs):
 class CHECK(Check):
     pid = "C04"
     entry = "REGFILE"
-    theorems = ["C04_total", "C04_one_element_per_line", "C04_accounting", "C04_dispatch_first_match", "C04_default_verbatim", "C04_data_local"]
+    theorems = ["C04_total", "C04_one_element_per_line", "C04_accounting", "C04_dispatch_first_match", "C04_default_verbatim", "C04_data_local",
+                "C04_identifier_found", "C04_identifier_literal", "C04_identifier_window"]
     rule = ("register lists of 1-4 types drawn from an identifier pool with substring relations (A, AB, B, 'AB ', BA, ...) "
             "and identifier windows >= the identifier length so that declaration order matters x text contents of 0-12 "
             "lines from a grammar (well-formed lines written by the types, truncated, extended, identifier shifted out of "
@@ -46,7 +47,7 @@ class CHECK(Check):
             "<=3 lines over a 6-line pool for 12 fixed register lists (complete). A third of the contents are read from a file on disk (utf-8) instead of in memory. Observed: type and data of every "
             "element of RegisterFile.read(content).data. non-trivial = at least one typed and one default element or "
             ">= 2 candidate types match a line; distinct = hash"
-            " Later additions: register class hierarchies, twin definitions (same identifier and window), fields declared out of column order, a third of the cases read from disk.")
+            " Round 11: identifiers that are regular expressions proper (anchors, classes, . \\s \\d, alternation, repetition; the model's regex language). Later additions: register class hierarchies, twin definitions (same identifier and window), fields declared out of column order, a third of the cases read from disk.")
 
     def gen(self, tier, rng):
         # complete small scope
@@ -69,6 +70,15 @@ class CHECK(Check):
             regdefs = reglib.gen_regdefs(rng, nmax=3, sci=False)
             lit, src = rng.choice([("*", "\\*"), ("A.", "A\\."), ("+B", "\\+B"), ("AB", "(AB)"), ("X1", "X[1]"), ("$", "[$]")])
             regdefs[rng.randrange(len(regdefs))].update({"ident": lit, "ident_re": src, "digits": len(lit) + rng.choice([0, 0, 1])})
+            lines = [gen_line(rng, regdefs) for _ in range(rng.randint(0, 10))]
+            content = "\n".join(lines) + (rng.choice(["\n", "\n", ""]) if lines else "")
+            yield {"regdefs": regdefs, "content": content, "kind": "random"}
+        # identifiers that are regular expressions proper (the model's language, coq/Py/PyRe.v): "found in the window" is re.search
+        for _ in range(600 if tier == "quick" else 12000):
+            regdefs = reglib.gen_regdefs(rng, nmax=4, sci=False)
+            for rd in regdefs:
+                if rng.random() < 0.6:
+                    rd["ident_pat"] = reglib.gen_ident_pat(rng, rd["ident"])
             lines = [gen_line(rng, regdefs) for _ in range(rng.randint(0, 10))]
             content = "\n".join(lines) + (rng.choice(["\n", "\n", ""]) if lines else "")
             yield {"regdefs": regdefs, "content": content, "kind": "random"}
@@ -142,7 +152,8 @@ class CHECK(Check):
 
     def classify(self, case):
         c = case["content"]
-        return {"kind_" + case["kind"]: 1, "types_%d" % len(case["regdefs"]): 1, "lines_%02d" % min(c.count("\n") + (1 if c and not c.endswith("\n") else 0), 12): 1,
+        return {"kind_" + case["kind"]: 1, "identifier_is_a_regular_expression_%s" % any("ident_pat" in rd for rd in case["regdefs"]): 1,
+                "types_%d" % len(case["regdefs"]): 1, "lines_%02d" % min(c.count("\n") + (1 if c and not c.endswith("\n") else 0), 12): 1,
                 "final_newline" if c.endswith("\n") else "no_final_newline": 1}
 
     def signature(self, case, why):
